@@ -536,6 +536,13 @@ int _vnadata_load_npd(vnadata_internal_t *vdip, FILE *fp, const char *filename)
 		if (expect_nnint_arg(&nss, &temp) == -1) {
 		    goto out;
 		}
+		if (temp < 1) {
+		    _vnadata_error(vdip, VNAERR_SYNTAX, "%s (line %d) error: "
+			    "%s must be at least 1",
+			    nss.nss_filename, nss.nss_line,
+			    FIELD(&nss, 0));
+		    goto out;
+		}
 		if (temp > VNADATA_MAX_PRECISION) {
 		    _vnadata_error(vdip, VNAERR_SYNTAX, "%s (line %d) error: "
 			    "%s may not exceed %d",
@@ -556,6 +563,13 @@ int _vnadata_load_npd(vnadata_internal_t *vdip, FILE *fp, const char *filename)
 		int temp;
 
 		if (expect_nnint_arg(&nss, &temp) == -1) {
+		    goto out;
+		}
+		if (temp < 1) {
+		    _vnadata_error(vdip, VNAERR_SYNTAX, "%s (line %d) error: "
+			    "%s must be at least 1",
+			    nss.nss_filename, nss.nss_line,
+			    FIELD(&nss, 0));
 		    goto out;
 		}
 		if (temp > VNADATA_MAX_PRECISION) {
